@@ -10,7 +10,7 @@ from ..dataflow import DefUse, origins
 from ..program import AnalysisError, dotted, src
 from ..core import walk_local  # inline-aware
 from .common import handler_catching, handler_body_nodes, raise_ctor_args, unwrap_await, where, loops_over
-from .c01 import response_status
+from .c01 import response_status, return_status
 
 REP = "xandikos.sync.SyncCollectionReporter"
 SBC = "xandikos.web.StoreBasedCollection"
@@ -134,7 +134,7 @@ def t2(ctx):
     for s in sites:
         h = handler_catching(cfg, s, "PreconditionFailure")
         if h is not None:
-            sts = [response_status(ctx, rm, b.ast.value) for b in handler_body_nodes(cfg, h) if b.kind == "return" and b.ast.value is not None]
+            sts = [return_status(ctx, rm, b) for b in handler_body_nodes(cfg, h) if b.kind == "return" and b.ast.value is not None]
             ok = bool(sts) and all(x == 412 for x in sts)
     obs.append(ctx.ob(ok, rm.qualname, rm.where, "PreconditionFailure -> 412 for REPORT", "answered 412", "ReportMethod does not answer PreconditionFailure with 412"))
     return obs
